@@ -109,6 +109,7 @@ class MPContext(BaseMPContext, StandardBaseContext):
 
         eps = ctx.constant(lambda prec, rnd: (0, MPZ_ONE, 1-prec, 1),
             "epsilon of working precision", "eps")
+        eps.contextual = True
         ctx.eps = eps
 
         # Approximate constants
